@@ -9,6 +9,7 @@ lookup).  Proved through the fuel recursion of `tssVisit` and both loops
 import WuffsVerif.Model.Det
 import WuffsVerif.Proof.Det
 import WuffsVerif.Proof.DetTopo
+import WuffsVerif.Proof.DetTopoCycle
 import WuffsVerif.Model.DetQQID
 
 namespace WuffsVerif.Props.C20
@@ -72,6 +73,88 @@ theorem toposort_is_topological_any_layout (ns : List StructDecl) (m : GoMap Key
 /-- non-vacuity: struct 0 needs 1 and 2, 1 needs 2; a duplicate QID resolves to the later struct -/
 example : topoSort [⟨10, [11, 12]⟩, ⟨11, [12]⟩, ⟨12, [99]⟩, ⟨13, []⟩] = some [2, 1, 0, 3] := by decide
 example : topoSort [⟨10, [11]⟩, ⟨11, []⟩, ⟨11, []⟩] = some [2, 0, 1] := by decide
+
+/-! ## "cycle" is reported exactly when the resolved dependency graph has one -/
+
+/-- The model never runs out of fuel: `topoSort` fails only if some struct lies on a cycle
+of the resolved dependency graph (Go: `ok = false` = "cyclical struct definitions"). -/
+theorem toposort_none_cycle (ns : List StructDecl) (h : topoSort ns = none) :
+    ∃ t, OnCycle ns.toArray (buildByQID ns).get t := by
+  unfold topoSort topoSortRep at h
+  rw [topoSortWith_eq] at h
+  cases hl : topLoop ns.toArray (buildByQID ns).get (ns.length + 2) (List.range ns.length)
+      ([], Array.replicate ns.length Mark.unmarked) with
+  | some st => rw [hl] at h; cases h
+  | none =>
+    have hsz : ns.toArray.size = ns.length := by simp
+    have hb : ∀ q d, (buildByQID ns).get q = some d → d < ns.toArray.size := by
+      intro q d hq; rw [hsz]; exact buildByQID_bound ns q d hq
+    have hmk : ∀ i, markOf (Array.replicate ns.length Mark.unmarked) i = Mark.unmarked := by
+      intro i
+      simp only [markOf, Array.getElem?_replicate]
+      split <;> rfl
+    have hinit : TInv ns.toArray (buildByQID ns).get ([], Array.replicate ns.length Mark.unmarked) := by
+      refine ⟨by simp, ?_, by simp, by simp, by simp⟩
+      intro i
+      simp only [hmk, not_mem_nil, iff_false]
+      intro h'; cases h'
+    exact topLoop_none ns.toArray (buildByQID ns).get hb (ns.length + 2) (by rw [hsz]; omega) (List.range ns.length) _
+      (fun i hi => by rw [hsz]; exact List.mem_range.mp hi) hinit (fun i => by simp only [hmk]; intro h'; cases h') hl
+
+/-- position lemma: in a duplicate-free list, what stands in `pre` stands before `b` -/
+theorem idxOf_lt_of_split {order pre suf : List Nat} {a b : Nat} (hn : order.Nodup) (e : order = pre ++ b :: suf)
+    (ha : a ∈ pre) : order.idxOf a < order.idxOf b := by
+  subst e
+  have hb : b ∉ pre := by
+    intro hb
+    have := (nodup_append.mp hn).2.2 b hb b (by simp)
+    exact this rfl
+  rw [idxOf_append, idxOf_append]
+  simp only [ha, hb, if_true, if_false, idxOf_cons_self]
+  have := idxOf_lt_length_of_mem ha
+  omega
+
+/-- Conversely a successful sort excludes cycles: the two together say that the model
+answers "cycle" iff there is one. -/
+theorem toposort_some_acyclic (ns : List StructDecl) (order : List Nat) (h : topoSort ns = some order) :
+    ¬ ∃ t, OnCycle ns.toArray (buildByQID ns).get t := by
+  obtain ⟨hnd, hmem, hclosed⟩ := toposort_is_topological ns order h
+  have hsz : ns.toArray.size = ns.length := by simp
+  -- an edge goes to a strictly earlier position
+  have hedge : ∀ i d, Edge ns.toArray (buildByQID ns).get i d → i < ns.length ∧ d < ns.length ∧ order.idxOf d < order.idxOf i := by
+    intro i d he
+    unfold Edge depsOf at he
+    obtain ⟨q, hq, hqd⟩ := mem_filterMap.mp he
+    have hi : i < ns.length := by
+      by_cases hi : i < ns.length
+      · exact hi
+      · have : ns.toArray[i]? = none := by simp; omega
+        rw [this] at hq
+        simp at hq
+    have hd : d < ns.length := buildByQID_bound ns q d hqd
+    have hq' : q ∈ fieldsOf ns i := by
+      unfold fieldsOf
+      simpa using hq
+    obtain ⟨pre, suf, e, hdp⟩ := hclosed i ((hmem i).mpr hi) q hq' d hqd
+    exact ⟨hi, hd, idxOf_lt_of_split hnd e hdp⟩
+  have hreach : ∀ d t, Reach ns.toArray (buildByQID ns).get d t → order.idxOf t ≤ order.idxOf d := by
+    intro d t hr
+    induction hr with
+    | refl i => exact Nat.le_refl _
+    | step he _ ih => have := (hedge _ _ he).2.2; omega
+  rintro ⟨t, d, he, hr⟩
+  have h1 := (hedge t d he).2.2
+  have h2 := hreach d t hr
+  omega
+
+theorem toposort_none_iff_cycle (ns : List StructDecl) :
+    topoSort ns = none ↔ ∃ t, OnCycle ns.toArray (buildByQID ns).get t := by
+  constructor
+  · exact toposort_none_cycle ns
+  · intro hc
+    cases h : topoSort ns with
+    | none => rfl
+    | some order => exact absurd hc (toposort_some_acyclic ns order h)
 
 /-! ## the comparator of the sorting / pick-the-largest sites -/
 
